@@ -30,6 +30,7 @@ ASSUMPTIONS = ['proofreader process stubbed at subprocess.run / run_languagetool
                '1..len(line)+1 (0-based variants for json/xml)']
 
 DOCS = [('plain', 'Ab cd\nef gh.\n', []),
+        ('ctrl', 'Ab\x0c cd\u2028ef\x0b gh\x85\n% \x1c \x1d \x1e\nij kl.\n', []),
         ('foot', 'Größe\\footnote{Fuß} zwei\ndrei.\n', []),
         ('ml', '\\usepackage[english]{babel}\nOne \\foreignlanguage{german}{zwei drei vier} two.\n',
          ['--multi-language'])]
@@ -124,7 +125,18 @@ def _one_mode(env, tex, lang, ms, mode, cache):
         state['n'] += 1
         return r
     saved = pr.run_languagetool, pr.subprocess.run
-    pr.run_languagetool = shellenv.REAL_LT
+
+    def real_lt_native(*a):
+        # all arguments are concrete here: the decoding runs natively (CrossHair's json
+        # model raises other exception types than CPython's decoder)
+        try:
+            from crosshair.core_and_libs import NoTracing
+            from crosshair.core import deep_realize
+        except ImportError:
+            return shellenv.REAL_LT(*a)
+        with NoTracing():
+            return shellenv.REAL_LT(*deep_realize(a))
+    pr.run_languagetool = real_lt_native
     pr.subprocess.run = run
     try:
         return _one_mode2(env, tex, lang, ms, mode, cache)
@@ -236,7 +248,9 @@ ANSWERS = [
 SHAPES = ['', ' ', '[]', '{}', 'null', '3', '"x"', '{"matches": 3}', '{"matches": null}',
           '{"matches": [3]}', '{"matches": [[]]}', '{"matches": [null]}', '{"matches": {}}',
           '{"Matches": []}', '{"matches": []} trailing', '\ufeff{"matches": []}', 'NaN',
-          '{"matches": [{"offset": 1e400, "length": 1}]}']
+          '{"matches": [{"offset": 1e400, "length": 1}]}',
+          '[' * 3000, '{"matches": ' + '[' * 3000 + ']' * 3000 + '}',
+          '{"matches": [{"offset": 0, "length": 1, "x": ' + '{"a": ' * 2500 + '1' + '}' * 2500 + '}]}']
 
 
 def build(item):
